@@ -154,4 +154,4 @@ def _is_number(t):
         float(t)
         return True
     except ValueError:
-        return t in ("None", "True", "False")
+        return t in ("None", "True", "False") or t[:1] in "'\""          # a different literal is a change of meaning, not a new idiom
